@@ -10,7 +10,7 @@ RULE = ("untyped grammar-generated programs (depth <= 8) over every operator, ma
         "from a hostile pool (i64/u64 extremes, NaN, infinities, subnormals, empty / non-ASCII strings and bytes, "
         "nested collections, durations and timestamps up to chrono's limits, function values); exhaustively all "
         "ordered pairs of the pool under + - * / % == != < <= > >= and partial_cmp applied directly to Value and "
-        "inside programs; every built-in on every pool value in both call styles; the only oracle is totality "
+        "inside programs; every built-in on every pool value in both call styles; every built-in and typed extractor on digit runs of 1-1200 digits in every numeric / duration / timestamp position and on long non-ASCII texts at every byte alignment, alone and inside wrongly typed receivers; the only oracle is totality "
         "(value or ExecutionError; no panic / abort / hang); non-trivial = program with >= 2 operators or an "
         "extreme operand; distinct = distinct (source, context) / value pair")
 ASSUMPTIONS = ["driver built with overflow checks and debug assertions on (profile mon), 8 MiB stack",
@@ -34,6 +34,8 @@ def units(tier, seed):
     us.append(('regex',))
     us.append(('builtins', 0))
     us.append(('builtins', 1))
+    for i in range(4):
+        us.append(('textargs', i))
     for i in range(16 if tier == 'quick' else 320):
         us.append(('programs', i))
     return us
@@ -154,6 +156,63 @@ def run_unit(unit, drv, res, seed, tier):
                 res.count("outcome:" + (o[1] if o[0] == 'err' else o[0]))
         res.exhaustive_done['builtins-x-pool'] = True
         res.sample({"src": cases[11]["src"], "vars": cases[11]["vars"]}, cap=1)
+    elif kind == 'textargs':
+        # text-consuming built-ins and every typed extractor on texts that stress their parsers and their error
+        # paths: digit runs beyond every machine width (i64, u64, i128, f64) in every numeric / duration /
+        # timestamp position, and long non-ASCII texts at every byte alignment - alone and inside wrongly typed
+        # receivers, so that error messages which quote, cut or pad the offending value are exercised too
+        texts = []
+        for n in (1, 18, 19, 20, 21, 38, 39, 40, 41, 64, 100, 310, 400, 1200):
+            for d in ('9' * n, '1' + '0' * (n - 1) if n > 1 else '7'):
+                texts += [d, '-' + d, d + 'u', d + '.5', '0.' + d, d + '.' + d, '1e' + d, '1e-' + d, d + 'e1', '0x' + d, '-0x' + d,
+                          d + 'h', d + 'm', d + 's', '-' + d + 'ms', d + 'us', d + 'ns', '1.' + d + 's', d + '.' + d + 'h', '1h' + d + 's',
+                          '2020-01-01T00:00:00.' + d + 'Z', d + '-01-01T00:00:00Z', '2020-01-01T00:00:' + d + 'Z',
+                          '2020-01-01T00:00:00+' + d + ':00', '2020-01-' + d + 'T00:00:00Z']
+        ali = []
+        for k in range(4):
+            for ch in ('é', '日', '𝄞', '\u0301'):
+                for n in (20, 27, 40, 64, 100, 300):
+                    ali.append('x' * k + ch * n)
+        part = unit[1]
+        fns = FUNCS + ["h1_s", "h1_i", "h1_y", "h1_l", "m0_s", "h2_is", "va"]
+        cases = []
+        for ti, t in enumerate(texts):
+            v = ('s', t)
+            for fi, f in enumerate(fns):
+                if (ti + fi) % 4 != part:
+                    continue
+                cases.append(exec_case(len(cases), "%s(a)" % f, [("a", v)]))
+                cases.append(exec_case(len(cases), "a.%s()" % f, [("a", v)]))
+                if f in ('duration', 'timestamp', 'int', 'uint', 'double', 'string', 'bytes'):
+                    cases.append(exec_case(len(cases), "%s(%s)" % (f, render_literal(v))))
+                    cases.append(exec_case(len(cases), "%s(bytes(a))" % f, [("a", v)]))
+        for ti, t in enumerate(ali):
+            v = ('s', t)
+            wraps = [("a", v), ("a", ('l', [v])), ("a", ('m', [(v, ('i', 1))])), ("a", ('m', [(('s', 'k'), v)])), ("a", ('y', t.encode('utf-8'))),
+                     ("a", ('l', [('i', 1), v, ('l', [v])]))]
+            for fi, f in enumerate(fns):
+                if (ti + fi) % 4 != part:
+                    continue
+                for w in wraps:
+                    cases.append(exec_case(len(cases), "%s(a)" % f, [w]))
+                    cases.append(exec_case(len(cases), "a.%s()" % f, [w]))
+                    cases.append(exec_case(len(cases), "a.%s('x')" % f, [w]))
+                    cases.append(exec_case(len(cases), "'x'.%s(a)" % f, [w]))
+                    cases.append(exec_case(len(cases), "%s(1, a)" % f, [w]))
+            for src in ("a + 1", "1 - a", "a[a]", "-a", "!a", "a ? 1 : 2", "a.b", "has(a.b)", "a in a", "a < 1", "[1][a]", "{1: 2}[a]", "a.all(x, x)",
+                        "a.map(x, x + 1)", "a && true", "1u * a"):
+                if ti % 4 != part:
+                    continue
+                for w in wraps:
+                    cases.append(exec_case(len(cases), src, [w]))
+        for partc in chunks(cases, 8000):
+            out = drv.run(partc, 'textargs')
+            for c, r in zip(partc, out):
+                res.evaluations += 1
+                res.nt(c["src"] + str(c.get("vars")))
+                o = check_total(res, c, r, 'built-in / operator on a hostile text')
+                res.count("textargs_outcome:" + (o[1] if o[0] == 'err' else o[0]))
+        res.exhaustive_done['text-built-ins-x-digit-runs-and-alignments'] = True
     elif kind == 'programs':
         cases = []
         for _ in range(2000):
